@@ -47,6 +47,10 @@ def render(version, check_delay, part=None):
         circus['include'] = '@SCRATCH@/inc.ini'
     txt = ini.render(circus=circus, watchers=ws,
                      env=version.get('env'), env_sections=envs)
+    if version.get('socket'):
+        # a managed socket (port 0: the fresh-start twin binds one of its own)
+        txt += '\n[socket:web]\nhost = 127.0.0.1\nport = 0\nbacklog = %d\n' \
+               % version['socket']['backlog']
     if version.get('plugin'):
         # a plugin runs as one more watcher ("plugin:NAME")
         txt += '\n[plugin:flap]\nuse = circus.plugins.flapping.Flapping\n' \
@@ -57,6 +61,10 @@ def render(version, check_delay, part=None):
 def section_key(w, version):
     """what makes a watcher's effective settings (besides numprocesses)"""
     return json.dumps([w['name'], w.get('cmd_extra', ''),
+                       # (a watcher that hands a managed socket to its
+                       # workers is re-created when that section changes)
+                       version.get('socket') if 'circus.sockets.web' in
+                       w.get('cmd_extra', '') else None,
                        sorted(w.get('opts', {}).items()),
                        sorted((w.get('env') or {}).items()),
                        sorted((version.get('env') or {}).items())],
@@ -139,9 +147,18 @@ class C12Episode(Episode):
                     opts = dict(opts)
                 procs = [p for p in k.procs.values() if p.orig_parent == me
                          and p.alive and p.marker == marker_of(n)]
+                def norm(argv):
+                    # worker ids and descriptor numbers are the daemon's
+                    # own business: '--wid=7' / '--fd', '39'
+                    out_ = []
+                    for a in argv:
+                        a = re.sub(r'--wid=\d+', '--wid=N', a)
+                        if out_ and out_[-1] == '--fd' and a.isdigit():
+                            a = 'FD'
+                        out_.append(a)
+                    return out_
                 sig = sorted(
-                    (json.dumps([re.sub(r'--wid=\d+', '--wid=N', a)
-                                 for a in p.argv]),
+                    (json.dumps(norm(p.argv)),
                      json.dumps(sorted((p.kw.get('env') or {}).items())),
                      p.kw.get('cwd')) for p in procs)
                 out['watchers'][n] = {'options': opts,
@@ -332,6 +349,13 @@ class C12(Prop):
             if rng.random() < 0.5:
                 # (the plugins' command lines carry the daemon's log level)
                 v['loglevel'] = rng.choice(['INFO', 'DEBUG'])
+        if v['watchers'] and rng.random() < 0.12:
+            # a managed socket that one watcher hands to its workers; edits
+            # of the socket section re-create the socket and that watcher
+            v['socket'] = {'backlog': 64}
+            w0 = rng.choice(v['watchers'])
+            w0['opts']['use_sockets'] = 'True'
+            w0['cmd_extra'] = ' --fd $(circus.sockets.web)'
         with_inc = rng.random() < 0.2
         if with_inc:
             # part of the configuration lives in an included file
@@ -353,7 +377,13 @@ class C12(Prop):
                 kinds += ['move', 'move']
             if versions[0].get('plugin'):
                 kinds += ['plugin']
+            if v.get('socket'):
+                kinds += ['socket', 'socket']
             kind = rng.choice(kinds)
+            if kind == 'socket':
+                v['socket'] = {'backlog': rng.choice(
+                    [b for b in (16, 64, 128)
+                     if b != v['socket']['backlog']])}
             if kind == 'move':
                 # a section moves between the main and the included file:
                 # the configuration is the same
@@ -458,7 +488,8 @@ class C12(Prop):
             if json.dumps(v.get('watchers'), sort_keys=True) == \
                     json.dumps(versions[-1].get('watchers'), sort_keys=True) \
                     and v.get('env') == versions[-1].get('env') \
-                    and v.get('plugin') == versions[-1].get('plugin'):
+                    and v.get('plugin') == versions[-1].get('plugin') \
+                    and v.get('socket') == versions[-1].get('socket'):
                 kind = 'move' if kind == 'move' else 'noop'
             v['edit'] = kind
             versions.append(v)
